@@ -8,6 +8,8 @@ import sys, json, itertools
 from mesonbuild.cargo import version as V
 from mesonbuild.cargo import cfg as C
 from mesonbuild.mesonlib import MesonException
+from mesonbuild.cargo import manifest as M
+from mesonbuild.cargo.interpreter import Interpreter
 
 SEP1, SEP2, SEP3 = '\x01', '\x02', '\x03'
 T = lambda b: 'T' if b else 'F'
@@ -55,6 +57,21 @@ def ev(fn, args):
         l = list(args)
         l.sort(reverse=True, key=lambda s: V.SemVer(s))      # manifest.py:739
         return SEP1.join(l)
+    if fn == 'api':
+        # through the lazy properties the callers use (manifest.py:317, 709)
+        a = M.Dependency(package='pkg', version=args[0]).api
+        return '=' + a
+    if fn == 'pkgapi':
+        return '=' + M.CargoLockPackage(name='pkg', version=args[0]).api
+    if fn == 'resolve':
+        return r_resolve(args[0], args[1:])
+    if fn == 'splitcfg':
+        k, v = Interpreter._split_cfg(args[0])
+        return k + SEP1 + v
+    if fn == 'getcfg':
+        rest = list(args[1:])
+        k = rest.index(SEP3) if SEP3 in rest else len(rest)
+        return T(C.eval_cfg(args[0], real_get_cfgs(rest[:k], rest[k + 1:])))
     if fn == 'lex':
         return SEP1.join(r_tok(t) for t in C.lexer(args[0]))
     if fn == 'parse':
@@ -64,6 +81,53 @@ def ev(fn, args):
         d = {kv[i]: kv[i + 1] for i in range(0, len(kv) - 1, 2)}
         return T(C.eval_cfg(args[0], d))
     return '?'
+
+
+# ---- the callers, run through meson's own classes --------------------------------------
+class _Stub:
+    """stands in for the Interpreter instance: only the attributes the called methods read"""
+
+
+def resolve(req, versions):
+    """Cargo.lock entries -> CargoLock._versions (sorted by SemVer, manifest.py:735-740) ->
+    Interpreter._resolve_package with Dependency.accepts_version (interpreter.py:520-530, 618)"""
+    lock = M.CargoLock(package=[M.CargoLockPackage(name='pkg', version=v) for v in versions])
+    stub = _Stub()
+    stub.cargolock = lock
+    dep = M.Dependency(package='pkg', version=req)
+    return Interpreter._resolve_package(stub, 'pkg', dep.accepts_version)
+
+
+def r_resolve(req, versions):
+    r = resolve(req, versions)
+    return '-' if r is None else 'V' + r.version
+
+
+class _Rustc:
+    def __init__(self, lines): self.lines = lines
+    def get_cfgs(self): return list(self.lines)
+
+
+class _OptStore:
+    def __init__(self, flags): self.flags = flags
+    def get_value_for(self, key): return list(self.flags)
+
+
+def real_get_cfgs(lines, flags):
+    """Interpreter._get_cfgs (interpreter.py:701-711) on a stub environment: rustc's cfg lines and
+    the rust_args option come from the arguments, everything else is meson's code"""
+    stub = _Stub()
+    cd = _Stub()
+    cd.compilers = {'m': {'rust': _Rustc(lines)}}
+    cd.optstore = _OptStore(flags)
+    stub.environment = _Stub()
+    stub.environment.coredata = cd
+    stub._split_cfg = Interpreter._split_cfg
+    f = Interpreter._get_cfgs
+    f = getattr(f, '__wrapped__', f)
+    from mesonbuild.mesonlib import MachineChoice
+    cd.compilers = {MachineChoice.HOST: {'rust': _Rustc(lines)}}
+    return f(stub, MachineChoice.HOST, '')
 
 
 def safe(fn, args):
@@ -245,6 +309,54 @@ def spec_comp(c, v):
     raise ValueError(op)
 
 
+def api_class(c):
+    if c['maj'] != 0:
+        return str(c['maj'])
+    if c.get('min'):
+        return '0.%d' % c['min']
+    return '0'
+
+
+def rel(a, b, c):
+    return {'maj': a, 'min': b, 'pat': c, 'pre': []}
+
+
+def bounds(c):
+    """Spec.bounds: the section-11 bounds one comparator stands for in meson"""
+    op = c['op']
+    if op == '*' and c.get('maj') is None:
+        return []
+    maj, mn, pt = c['maj'], c.get('min'), c.get('pat')
+    cv = {'maj': maj, 'min': mn or 0, 'pat': pt or 0, 'pre': c.get('pre') or []}
+    if op == '=': return [('eq', cv)]
+    if op == '>': return [('gt', cv)]
+    if op == '>=': return [('ge', cv)]
+    if op == '<': return [('lt', cv)]
+    if op == '<=':
+        if cv['pre']:
+            return [('le', cv)]
+        if mn is None: return [('lt', rel(maj + 1, 0, 0))]
+        if pt is None: return [('lt', rel(maj, mn + 1, 0))]
+        return [('lt', rel(maj, mn, pt + 1))]
+    if op in ('~', '*'):
+        return [('ge', cv), ('lt', rel(maj + 1, 0, 0) if mn is None else rel(maj, mn + 1, 0))]
+    if op in ('^', ''):
+        if maj != 0: up = rel(maj + 1, 0, 0)
+        elif cv['min'] != 0: up = rel(0, cv['min'] + 1, 0)
+        elif cv['pat'] != 0: up = rel(0, 0, cv['pat'] + 1)
+        else: up = rel(1, 0, 0)
+        return [('ge', cv), ('lt', up)]
+    raise ValueError(op)
+
+
+def meson_comp(c, v):
+    for op, w in bounds(c):
+        k = prec_cmp(v, w)
+        if not {'lt': k < 0, 'le': k <= 0, 'gt': k > 0, 'ge': k >= 0, 'eq': k == 0}[op]:
+            return False
+    return True
+
+
 def spec_release_matches(comps, v):
     return all(spec_comp(c, v) for c in comps)
 
@@ -313,14 +425,31 @@ def oracle(grp):
         text = pr_req(comps, sp) if 'text' not in r else r['text']
         f = V.cargo_parse(text)
         names_pre = any(c.get('pre') for c in comps)
+        if 'text' not in r:
+            # version.api via Dependency.api: x.y.z -> x, 0.x.y -> 0.x, 0.0.x -> 0 over the lower bounds
+            cls = {api_class(c) for c in comps if c['op'] in ('>=', '=', '^', '', '~') or (c['op'] == '*' and c.get('maj') is not None)}
+            exp_api = '' if not cls else (cls.pop() if len(cls) == 1 else 'EXC:MesonException')
+            try:
+                got_api = M.Dependency(package='pkg', version=text).api
+            except Exception as e:
+                got_api = 'EXC:' + type(e).__name__
+            if got_api != exp_api:
+                add('api', req=text, expected=exp_api, got=got_api)
         for v, p in zip(vs, ps):
             got = f(p)
             if not v.get('pre'):
                 exp = spec_release_matches(comps, v)
                 if got != exp:
                     add('req_release', req=text, version=p, expected=exp, got=got)
-            elif not names_pre and got:
-                add('req_gate', req=text, version=p, expected=False, got=got)
+            elif not names_pre:
+                if got:
+                    add('req_gate', req=text, version=p, expected=False, got=got)
+            elif 'text' not in r:
+                # a pre-release version against a requirement that names a pre-release: every
+                # comparator is a set of bounds in the section 11 order (Spec.meson_matches)
+                exp = all(meson_comp(c, v) for c in comps)
+                if got != exp and not split_class(v) and not any(split_class(c) for c in comps):
+                    add('req_prerelease', req=text, version=p, expected=exp, got=got)
     # (4) cfg() expressions: Boolean meaning
     for c in grp.get('cfg', []):
         text = 'cfg(' + pr_cfg(c['ast'], c.get('sp', 0)) + ')'
@@ -351,7 +480,65 @@ def oracle(grp):
                 exp = sem(ref, d)
                 if got is not exp:
                     add('cfg_eval', expr='cfg(' + text + ')', cfgs=d, expected=exp, got=got)
+    # (6) the caller Interpreter._resolve_package over CargoLock._versions: the most recent accepted entry
+    for r in grp.get('resolve', []):
+        text = r['text'] if 'text' in r else pr_req(r['comps'], r.get('sp', 0))
+        rvs = r['versions']
+        rps = [pr_version(v) for v in rvs]
+        f = V.cargo_parse(text)
+        acc = [i for i, p in enumerate(rps) if f(p)]
+        got = resolve(text, rps)
+        gv = None if got is None else got.version
+        if not acc:
+            if gv is not None:
+                add('resolve', req=text, versions=rps, expected=None, got=gv)
+        elif gv is None or gv not in [rps[i] for i in acc]:
+            add('resolve', req=text, versions=rps, expected='an accepted entry', got=gv)
+        else:
+            g = rvs[rps.index(gv)]
+            better = [rps[i] for i in acc if prec_cmp(rvs[i], g) > 0]
+            if better and not (split_class(g) or any(split_class(rvs[i]) for i in acc)):
+                add('resolve', req=text, versions=rps, expected=better[0], got=gv)
+    # (7) the caller Interpreter._get_cfgs: conditions against what rustc printed (a SET of
+    #     name / name="value" options, as in the Rust reference) plus --cfg flags
+    for c in grp.get('cfgglue', []):
+        opts = c['options']                         # [[name, None] | [name, value]]
+        lines = [n if v is None else '%s="%s"' % (n, v) for n, v in opts[:c.get('nlines', len(opts))]]
+        flags = []
+        for n, v in opts[c.get('nlines', len(opts)):]:
+            flags += c.get('filler', []) + ['--cfg', n if v is None else '%s="%s"' % (n, v)]
+        text = 'cfg(' + pr_cfg(c['ast'], c.get('sp', 0)) + ')'
+        exp = sem_opts(c['ast'], opts)
+        try:
+            got = C.eval_cfg(text, real_get_cfgs(lines, flags))
+        except Exception as e:
+            got = 'EXC:' + type(e).__name__
+        if got is not exp:
+            add('cfg_glue', expr=text, rustc_cfg=lines, rust_args=flags, expected=exp, got=got,
+                multivalued=multi_valued(c['ast'], opts))
     return fails
+
+
+def sem_opts(e, opts):
+    k = e[0]
+    if k == 'id': return any(n == e[1] and v is None for n, v in opts)
+    if k == 'eq': return any(n == e[1] and v == e[2] for n, v in opts)
+    if k == 'all': return all(sem_opts(x, opts) for x in e[1])
+    if k == 'any': return any(sem_opts(x, opts) for x in e[1])
+    if k == 'not': return not sem_opts(e[1], opts)
+    raise ValueError(k)
+
+
+def multi_valued(e, opts):
+    """does the expression test a key for which rustc printed several different values?"""
+    k = e[0]
+    if k == 'eq':
+        return len({v for n, v in opts if n == e[1]}) > 1
+    if k == 'id':
+        return False
+    if k == 'not':
+        return multi_valued(e[1], opts)
+    return any(multi_valued(x, opts) for x in e[1])
 
 
 # cfg AST: ["id", n] | ["eq", n, v] | ["all", [..]] | ["any", [..]] | ["not", e]
